@@ -157,6 +157,11 @@ func (t *wScreen) drawCell(x, y int) int {
 
 	t.cells.SetDirty(x, y, false)
 	js.Global().Call("drawCell", x, y, s, fg, bg, int(style.attrs), int(us), int(uc))
+	if width > 1 && x+1 < t.w {
+		// the page keeps one entry per column: what the wide rune covers
+		// has no text of its own (whatever was there must not stay behind)
+		js.Global().Call("drawCell", x+1, y, "", fg, bg, int(style.attrs), int(us), int(uc))
+	}
 
 	return width
 }
